@@ -49,7 +49,7 @@ def main(pid):
             failed.append(f"harmless/{n}: patch does not apply to the current tree")
             continue
         harm += 1
-        if rc == 0:
+        if rc in meta.get("accept_exit", [0]):      # 2 (undecided, no alarm) is acceptable only where the refactor's meta.json says why
             quiet += 1
         else:
             failed.append(f"harmless/{n}: harmless refactor reported (exit {rc})")
